@@ -65,7 +65,15 @@ Definition ok11 (i : rinput) (o : robs) : bool :=
   (match ri_fault i with
    | FCallback j => if Nat.ltb j nrem then ro_err o && Nat.eqb (length (ro_delivered o)) (S j) else true
    | FRow j => if Nat.ltb j nrem then ro_err o else true
-   | FCancel j => if Nat.ltb j nrem then ro_err o || Nat.eqb (length (ro_delivered o)) nrem else true
+   | FCancel j =>
+       if Nat.ltb j nrem then
+         (ro_err o || Nat.eqb (length (ro_delivered o)) nrem) &&
+         (* the streaming paths look at the context before every event: a cancellation that leaves events undelivered
+            ends in an error there (the paged paths look only between pages and may finish the last page) *)
+         (match ri_kind i with
+          | KMemStream | KSqStream => if Nat.ltb (S j) nrem then ro_err o else true
+          | _ => true end)
+       else true
    | FReadCall j => if Nat.eqb j 0 then ro_err o else true
    | FNone => true end) &&
   negb (ro_appended o) && negb (ro_handlers o).
